@@ -9,7 +9,7 @@ F_ERR = "src/machine/machine_errors.rs"
 STD = ["strip_head", "name_return", "stub_gen",
        ("expand_macro", "fixnum", F_AST, "R5"),
        ("macro_fn", "arena_alloc", "arena_alloc", "R5"),
-       ("macro_fn", "try_numeric_result", "try_numeric_result", "R4"),
+       ("expand_macro", "try_numeric_result", F_OPS, "R5"), "boxed_error",
        "map_unwrap", "ref_ops", "ref_patterns"]
 
 def fn(name, file=F_OPS, extra=(), **kw):
@@ -23,12 +23,15 @@ UNIT = {
     "specs": ["../common/divmod.spec", "arith.spec"],
     "explicit_use": ["Integer"],
     "broadcast_use": ["ax_number::axiom_fixnum_range", "ax_number::axiom_ubig_nonneg", "ax_number::axiom_q_sign_range", "ax_float::axiom_f_add_comm",
-                      "ax_float::axiom_f_mul_comm", "ax_float::axiom_f_of_i64_finite",
+                      "ax_float::axiom_f_mul_comm", "ax_float::axiom_f_of_i64_finite", "ax_float::axiom_f_neg_finite", "ax_float::axiom_f_abs_finite",
                       "vstd::arithmetic::mul::lemma_mul_is_commutative"],
     "items": [
         {"block": "enum", "header": r"enum Number", "file": F_FORMS, "rewrites": ["strip_type_head"]},
         {"block": "enum", "header": r"enum EvalError", "file": F_ERR, "rewrites": ["strip_type_head"]},
         {"block": "enum", "header": r"enum ValidType", "file": F_ERR, "rewrites": ["strip_type_head"]},
+        fn("zero_divisor_eval_error", extra=[("replace", "impl Fn() -> MachineStub + 'static", "StubGen", "R4")]),
+        fn("undefined_eval_error", extra=[("replace", "impl Fn() -> MachineStub + 'static", "StubGen", "R4")]),
+        fn("numerical_type_error", extra=[("replace", "impl Fn() -> MachineStub + 'static", "StubGen", "R4")]),
         fn("add"),
         fn("neg", extra=[("float_neg", ["f"])]),
         fn("abs"),
@@ -56,6 +59,18 @@ UNIT = {
         fn("shr", extra=[("rename", "int", "int_v", "R13")]), fn("shl", extra=[("rename", "int", "int_v", "R13")]),
         fn("max"), fn("min"),
         fn("gcd"),
+        fn("binary_pow", file=F_AR, extra=[("replace", "Integer::ONE", "integer_one()", "R5")]),
+        fn("float"),
+        fn("unary_float_fn_template"),
+        fn("int_pow"),
+        fn("sin"), fn("cos"), fn("tan"), fn("log", extra=[("replace", "f64::consts::E", "f64_consts_e()", "R5")]), fn("exp"), fn("asin"), fn("acos"), fn("atan"),
+        fn("float_fractional_part"), fn("float_integer_part"), fn("sqrt"), fn("atan2"),
+        {"fn": "div", "impl": r"impl Div < Number > for Number", "file": F_AR, "emit_name": "Number_div", "rewrites": STD,
+         "wrap_pre": "impl core::ops::Div<Number> for Number {\n    type Output = Result<Number, EvalError>;\n", "wrap_post": "}\n"},
+        fn("div"),
+        fn("float_pow"), fn("pow"),
+        fn("round", extra=[("replace", "(*f).round()", "f64_round(f.0)", "R10")]),
+        fn("floor", extra=["unwrap_or_else"]), fn("ceiling"), fn("truncate"),
         {"fn": "sign", "impl": r"impl Number", "file": F_FORMS, "emit_name": "Number_sign",
          "rewrites": STD + [("replace", "*f == 0.0", "of64_is_zero(*f)", "R10")],
          "wrap_pre": "impl Number {\n", "wrap_post": "}\n"},
